@@ -143,6 +143,22 @@ func (p c12) Gen(seed uint64, enum int, tier string) json.RawMessage {
 		s.History = append(s.History, r.Intn(len(c12Reqs)))
 	}
 	s.Cache = []string{"", "plain", "plan"}[r.Intn(3)]
+	// requests with the same text and other variables are likely neighbours in a
+	// real history, and they share cached plans
+	var siblings []int
+	for i, q := range c12Reqs {
+		if i != s.Req && q.Query == c12Reqs[s.Req].Query {
+			siblings = append(siblings, i)
+		}
+	}
+	if len(siblings) > 0 && r.Chance(70) {
+		for n := 1 + r.Intn(2); n > 0; n-- {
+			s.History = append(s.History, siblings[r.Intn(len(siblings))])
+		}
+		if s.Cache == "" {
+			s.Cache = []string{"plain", "plan"}[r.Intn(2)]
+		}
+	}
 	s.Repeat = r.Intn(3)
 	return mustJSON(s)
 }
@@ -241,7 +257,7 @@ func c12Exec(w *World, rq c12Req, cache *graphql.PlanCache, plans map[string]*gr
 		}
 		return MarshalResult(graphql.ExecutePlan(pr.Plan, graphql.ExecuteParams{Schema: w.Schema, Args: rq.Vars, Context: ctx}))
 	case "plan":
-		pl, ok := plans[rq.Name]
+		pl, ok := plans[rq.Query]
 		if !ok {
 			doc, err := parseDoc(rq.Query)
 			if err == nil && graphql.ValidateDocument(&w.Schema, doc, nil).IsValid {
@@ -249,7 +265,7 @@ func c12Exec(w *World, rq c12Req, cache *graphql.PlanCache, plans map[string]*gr
 					pl = p
 				}
 			}
-			plans[rq.Name] = pl
+			plans[rq.Query] = pl // a caller holding the plan of a text reuses it whatever the variables
 		}
 		if pl != nil {
 			return MarshalResult(graphql.ExecutePlan(pl, graphql.ExecuteParams{Schema: w.Schema, Args: rq.Vars, Context: ctx}))
